@@ -65,7 +65,6 @@ HintOf(s, e) ==
 (* Comparison of one allowed result r with the logged event e, per focus *)
 Count(seq, x) == Cardinality({i \in 1..Len(seq) : seq[i] = x})
 SameBag(seq, seq2) == \A x \in ToSet(seq) \cup ToSet(seq2) : Count(seq, x) = Count(seq2, x)
-SetToSeq(S) == CHOOSE q \in [1..Cardinality(S) -> S] : \A x \in S : \E i \in 1..Cardinality(S) : q[i] = x
 MsgsOf(ws) == [i \in 1..Len(ws) |-> WriteMsg(ws[i])]
 
 OutcomeMatches(r, e) ==
@@ -74,13 +73,19 @@ OutcomeMatches(r, e) ==
                             /\ (e.out.cls \in {"MissingNode", "MissingChild"}) => e.out.id = r.out.id
     /\ (e.out.k = "yield") => e.out.m = r.out.m
 
-ExpectedOk(r)   == r.react \o (IF r.presOk THEN r.pres ELSE <<>>) \o SetToSeq(r.rel)
+(* the successful writes the reference expects, as a bag: reactions in order, the presentation *)
+(* request, the released commands (a set: any order)                                           *)
+ExpCount(r, x) == Count(r.react, x) + (IF r.presOk THEN Count(r.pres, x) ELSE 0) + (IF x \in r.rel THEN 1 ELSE 0)
+ExpSupport(r)  == ToSet(r.react) \cup ToSet(r.pres) \cup r.rel
+BagMatches(ok, r, F(_)) == \A x \in ToSet(ok) \cup ExpSupport(r) : F(x) => Count(ok, x) = ExpCount(r, x)
 IsReactW(r, m)  == ~IsPresW(m) /\ m \notin r.rel /\ m \notin r.relFail
+AnyW(m) == TRUE
+IsSetW(m) == m.cmd = C_SET
 
 Match(r, e, prevErr) ==
     LET ok == MsgsOf(OkWrites(e))
         full == OutcomeMatches(r, e) /\ NoRb(NodesOf(e.post.nodes)) = NoRb(r.nodes)
-                /\ e.post.ver = r.ver /\ e.post.proto = r.proto /\ SameBag(ok, ExpectedOk(r))
+                /\ e.post.ver = r.ver /\ e.post.proto = r.proto /\ BagMatches(ok, r, AnyW)
     IN
     \* C03: nothing but a message or a library error, and normal service after an error
     /\ ("family" \in Focus) => e.out.k \in {"yield", "ok", "err"}
@@ -97,7 +102,7 @@ Match(r, e, prevErr) ==
     \* C07 / C08: set commands written at sends and wakes
     /\ ("sets" \in Focus) =>
           /\ "flush" \notin r.viol
-          /\ SameBag(SelectSeq(ok, LAMBDA m : m.cmd = C_SET), SelectSeq(ExpectedOk(r), LAMBDA m : m.cmd = C_SET))
+          /\ BagMatches(ok, r, IsSetW)
     /\ ("faultReported" \in Focus) => (r.relFail # {} => (e.out.k = "err" /\ e.out.cls = "Transport"))
     \* C10: presentation requests only
     /\ ("pres" \in Focus) =>
@@ -113,7 +118,7 @@ Match(r, e, prevErr) ==
     /\ ("sendres" \in Focus) =>
           /\ (e.k \in {"send", "sendjunk"}) => (e.out.k = r.out.k /\ (e.out.k = "err" => e.out.cls \in r.out.cls))
           /\ "flush" \notin r.viol
-          /\ SameBag(ok, ExpectedOk(r))
+          /\ BagMatches(ok, r, AnyW)
 
 -----------------------------------------------------------------------------
 NoHid == [setbuf |-> EmptyFn, asked |-> {}, held |-> {}, prevErr |-> FALSE]
